@@ -1257,7 +1257,17 @@ class CircuitTemplate(AbstractBaseTemplate):
         idx = self._vectorization_indices[var]
         try:
             *n, o, v = var.split('/')
-            return np.arange(*self._state_var_indices[v])[idx]
+            # the positions in the state vector are recorded under the backend name of the variable
+            # (`x_v1` for a second variable called `x`), not under its frontend name
+            try:
+                v = self._ir.get_var(self._relabel_var(var, self._vectorization_labels)).name
+            except Exception:
+                pass
+            pos = self._state_var_indices[v]
+            if isinstance(pos, (int, np.integer)):
+                # scalar state variable: a single position
+                return np.asarray([pos])[idx]
+            return np.arange(*pos)[idx]
         except KeyError:
             return idx
 
